@@ -181,6 +181,15 @@ func runCheck(repo, verifDir, prop, tier, evidence string, timeout int, verbose 
 	coverUndecided := 0
 	byBackend := map[string]int{}
 	solverTime := 0.0
+	// reachability obligations with the same name (one per path on which an assumption was applied) are
+	// satisfied by any one satisfiable instance
+	coverSat := map[string]bool{}
+	for _, o := range run.obls {
+		if o.Cover && o.Status == "sat" {
+			coverSat[o.Name] = true
+		}
+	}
+	coverFaulted := map[string]bool{}
 	for _, o := range run.obls {
 		solverTime += o.Time
 		if o.Cover {
@@ -190,7 +199,10 @@ func runCheck(repo, verifDir, prop, tier, evidence string, timeout int, verbose 
 				discharged++
 				byBackend[baseSolver(o.Solver)]++
 			case "unsat":
-				run.faults = append(run.faults, fmt.Sprintf("%s: vacuous (hypotheses unsatisfiable)", o.Name))
+				if !coverSat[o.Name] && !coverFaulted[o.Name] {
+					coverFaulted[o.Name] = true
+					run.faults = append(run.faults, fmt.Sprintf("%s: vacuous (hypotheses unsatisfiable)", o.Name))
+				}
 			default:
 				coverUndecided++
 			}
